@@ -103,7 +103,7 @@ def in_lit(facts, x, vals, adt, positive=True):
         m = {"Continue": "Ok", "Break": "Err"}
         return in_lit(facts, x[2][0], [m[v] for v in vals], "core::result::Result", positive)
     # a value whose variant is known
-    if adt in ("core::option::Option", "core::result::Result"):
+    if adt is not None:
         known = None
         if x[0] == "enum" and x[1] == adt:
             known = x[2]
@@ -232,7 +232,8 @@ class PG:
                 if pl["l"] in out:
                     return True
             e = a.expr_rvalue(rv, (dd[0], dd[1]))
-            if e[0] == "adt" and (e[1].startswith("core::option::Option::") or e[1].startswith("core::result::Result::")) and rv.get("agg") == "adt":
+            if e[0] == "adt" and rv.get("agg") == "adt" and (e[1].startswith("core::option::Option::") or e[1].startswith("core::result::Result::") or
+                                                             ((self.facts.adt(rv.get("adt")) or {}).get("kind") == "enum")):
                 # `if c { Some(v) } else { None }`: which variant was built is carried along the path
                 return True
             return e[0] in ("str", "int", "enum", "bool", "bytes", "item")
@@ -509,6 +510,36 @@ class PG:
                 return False, len(starts)
             work += [m for m, _ in self.edges[n] or []]
         return True, len(starts)
+
+    def possible_values(self, site_at, is_subject, universe):
+        """The variants the subject (an enum-valued expression picked by is_subject(expr)) can have when control
+        reaches the site: along each path the `in` literals on it are intersected (nested matches narrow step by step:
+        `A | B | C => { .. match t { A => .., B => .., _ => here } }` is C), and the paths are united."""
+        sb = site_at[0]
+        U = frozenset(universe)
+        start = (0, U)
+        seen = {start}
+        work = [start]
+        out = set()
+        while work:
+            n, cur = work.pop()
+            if self.nodes[n][0] == sb:
+                out |= cur
+                continue
+            for m, lits in self.edges[n] or []:
+                c2 = cur
+                for l in lits:
+                    if l[0] == "in" and is_subject(l[1]):
+                        c2 = c2 & frozenset(l[2])
+                    elif l[0] == "notin" and is_subject(l[1]):
+                        c2 = c2 - frozenset(l[2])
+                if not c2:
+                    continue
+                st = (m, c2)
+                if st not in seen:
+                    seen.add(st)
+                    work.append(st)
+        return out
 
     def holds_at_exit(self, write_eval, assume=None):
         """Product with a 'last write' state. write_eval(node) -> None (the node's block does not write the
